@@ -609,3 +609,67 @@ async fn standin_tls_accept_garbage() {
         }
     }
 }
+
+/// acc.ack.buf_size / acc.ok_buf_size / acc.next_ok_buf_size / acc.ack.ends_paired [C09]: the pipe `ack` creates holds
+/// min(size the client asked for, server cap) bytes - the client's size when the server has no cap - in BOTH directions,
+/// and the accepted stream is the other end of what the client got.  Measured on the real streams: how many bytes one
+/// end takes before the other end has read anything.
+#[tokio::test]
+async fn acc_ack_buffer_size() {
+    use futures_util::StreamExt as _;
+    use std::time::Duration;
+    use tokio::io::{AsyncReadExt as _, AsyncWrite};
+    fn room<W: AsyncWrite + Unpin>(w: &mut W) -> usize {
+        let waker = futures_util::task::noop_waker();
+        let mut cx = Context::from_waker(&waker);
+        let chunk = [7u8; 64];
+        let mut taken = 0usize;
+        loop {
+            match Pin::new(&mut *w).poll_write(&mut cx, &chunk) {
+                Poll::Ready(Ok(0)) | Poll::Pending => return taken,
+                Poll::Ready(Ok(n)) => taken += n,
+                Poll::Ready(Err(e)) => panic!("write on a fresh duplex stream failed: {e}"),
+            }
+            assert!(taken <= 1 << 20, "the pipe takes more than 1 MiB unread: not bounded by any of the sizes under test");
+        }
+    }
+    for via_stream in [false, true] {
+        for (cap, ask) in [(None, 48usize), (Some(16usize), 48), (Some(48), 16), (Some(32), 32), (None, 1), (Some(5), 1000)] {
+            let want = cap.map_or(ask, |c: usize| c.min(ask));
+            let what = format!("client asks for {ask} bytes, server cap {cap:?}, via {}", if via_stream { "Stream::poll_next" } else { "Accept::poll_accept" });
+            let (client, incoming) = duplex::pair();
+            let mut incoming = match cap {
+                Some(c) => incoming.with_max_buf_size(c),
+                None => incoming,
+            };
+            let (c, s) = tokio::time::timeout(Duration::from_secs(5), async {
+                tokio::join!(client.connect(ask), async {
+                    if via_stream {
+                        incoming.next().await.expect("a client handle is alive")
+                    } else {
+                        poll_fn(|cx| Pin::new(&mut incoming).poll_accept(cx)).await
+                    }
+                })
+            })
+            .await
+            .unwrap_or_else(|_| panic!("{what}: connect/accept pair does not complete"));
+            let mut c = c.unwrap_or_else(|e| panic!("{what}: connect() of a live client reported `{e}`"));
+            let mut s = s.unwrap_or_else(|e| panic!("{what}: the acceptor reported `{e}` for a live client"));
+            let up = room(&mut c);
+            assert_eq!(up, want, "{what}: the client's end takes {up} unread bytes, expected min(requested, cap) = {want}");
+            let down = room(&mut s);
+            assert_eq!(down, want, "{what}: the server's end takes {down} unread bytes, expected min(requested, cap) = {want}");
+            // the two ends are one pipe: exactly the bytes written at one end arrive at the other
+            let mut got = vec![0u8; want];
+            tokio::time::timeout(Duration::from_secs(5), s.read_exact(&mut got))
+                .await
+                .unwrap_or_else(|_| panic!("{what}: the accepted stream is not the other end of what the client received"))
+                .unwrap();
+            assert!(got.iter().all(|b| *b == 7));
+            tokio::time::timeout(Duration::from_secs(5), c.read_exact(&mut got))
+                .await
+                .unwrap_or_else(|_| panic!("{what}: the client's stream is not the other end of the accepted one"))
+                .unwrap();
+        }
+    }
+}
